@@ -3,8 +3,8 @@ The invariant of the pair of views (`Good` = id discipline + wires + bytes) is p
 SEQUENCE of small steps of either side (`Star`) and by deliveries and cuts.
 Core Lean only.
 -/
-import Penguin.Lemmas.PairAllDirA
-import Penguin.Lemmas.PairAllDirB
+import Penguin.Lemmas.PairAllFinA
+import Penguin.Lemmas.PairAllFinB
 
 namespace Penguin.PairAll
 open Penguin.Mux
@@ -12,83 +12,91 @@ open Penguin.Mux
 variable {x j : Nat} {ownA ownB : Prop}
 
 /-- The invariant of the pair of views with respect to flow `x`, for the direction left → right and object
-    `j` of the right side. `S`: the `Push x` payloads the left sink has taken, `R`: those accepted into `j`. -/
-structure Good (x j : Nat) (ownA ownB : Prop) (c : PC) (S R : List Bytes) : Prop where
+    `j` of the right side. `S`: the `Push x` payloads the left sink has taken, `R`: those accepted into `j`,
+    `W`: those the left side's writes queued, `P`: the `Finish x` processed for `j`. -/
+structure Good (x j : Nat) (ownA ownB : Prop) (c : PC) (S R W : List Bytes) (P : Nat) : Prop where
   core : CoreS ownA ownB (sm x c)
   wires : Wires c
   dir : Dir x j c S R
+  fin : Fin x j c S R W P
 
-theorem rngNil_mono_step {jj : Nat} {v v' : View} {ws : List Msg} {acc : List Bytes} (h : AStep x jj v v' ws acc)
-    (hn : v'.rngNil = false) : v.rngNil = false := by
+theorem rngNil_mono_step {jj : Nat} {v v' : View} {ws : List Msg} {acc : List Bytes} {xl : List XL}
+    (h : AStep x jj v v' ws acc xl) (hn : v'.rngNil = false) : v.rngNil = false := by
   cases h <;> first | exact hn | skip
   · rename_i c n hc hn'
     cases hv : v.rngNil with
     | false => rfl
     | true => simp only at hn; rw [hn' hv] at hn; cases hn
-  · rename_i c n s m hc hn' hd hs ho hne hm1 hm2
+  · rename_i c n s m hc hn' hd hs ho hk
     cases hv : v.rngNil with
     | false => rfl
     | true => simp only at hn; rw [hn' hv] at hn; cases hn
 
-theorem rngNil_mono_star {jj : Nat} {v v' : View} {ws : List Msg} {acc : List Bytes} (h : Star x jj v v' ws acc)
-    (hn : v'.rngNil = false) : v.rngNil = false := by
+theorem rngNil_mono_star {jj : Nat} {v v' : View} {ws : List Msg} {acc : List Bytes} {xl : List XL}
+    (h : Star x jj v v' ws acc xl) (hn : v'.rngNil = false) : v.rngNil = false := by
   induction h with
   | refl v => exact hn
   | step st _ ih => exact rngNil_mono_step st (ih hn)
 
 /-- One small step in which the left side acts or receives. -/
-theorem Good.stepL (hex : ¬(ownA ∧ ownB)) {jA : Nat} {c c' : PC} {S R : List Bytes} {ws : List Msg} {acc : List Bytes}
-    (g : Good x j ownA ownB c S R) (st : CStepL x jA c c' ws acc) (hn : c'.a.rngNil = false) :
-    Good x j ownA ownB c' (S ++ pX x ws) R :=
-  ⟨g.core.stepL hex (sm_stepL st hn), g.wires.stepL st, Dir.stepA hex g.core g.wires g.dir st hn⟩
+theorem Good.stepL (hex : ¬(ownA ∧ ownB)) {jA : Nat} {c c' : PC} {S R W : List Bytes} {P : Nat} {ws : List Msg}
+    {acc : List Bytes} {xl : List XL} (g : Good x j ownA ownB c S R W P) (st : CStepL x jA c c' ws acc xl)
+    (hn : c'.a.rngNil = false) : Good x j ownA ownB c' (S ++ pX x ws) R (W ++ XL.wrotes xl) P :=
+  ⟨g.core.stepL hex (sm_stepL st hn), g.wires.stepL st, Dir.stepA hex g.core g.wires g.dir st hn,
+    Fin.stepA hex g.core g.wires g.dir g.fin st hn⟩
 
 /-- One small step in which the right side acts or receives. -/
-theorem Good.stepR (hex : ¬(ownA ∧ ownB)) {c c'' : PC} {S R : List Bytes} {ws : List Msg} {acc : List Bytes}
-    (g : Good x j ownA ownB c S R) (st : CStepL x j c.swap c'' ws acc) (hn : c''.a.rngNil = false) :
-    Good x j ownA ownB c''.swap S (R ++ acc) := by
-  refine ⟨?_, (g.wires.swap.stepL st).swap, Dir.stepB hex g.core g.wires g.dir st hn⟩
+theorem Good.stepR (hex : ¬(ownA ∧ ownB)) {c c'' : PC} {S R W : List Bytes} {P : Nat} {ws : List Msg}
+    {acc : List Bytes} {xl : List XL} (g : Good x j ownA ownB c S R W P) (st : CStepL x j c.swap c'' ws acc xl)
+    (hn : c''.a.rngNil = false) : Good x j ownA ownB c''.swap S (R ++ acc) W (P + XL.fins xl) := by
+  refine ⟨?_, (g.wires.swap.stepL st).swap, Dir.stepB hex g.core g.wires g.dir st hn,
+    Fin.stepB hex g.core g.wires g.dir g.fin st hn⟩
   have h1 : CoreS ownB ownA (sm x c'') :=
     CoreS.stepL (fun h => hex ⟨h.2, h.1⟩) (by simpa [sm_swap] using g.core.swap) (sm_stepL st hn)
   simpa [sm_swap] using h1.swap
 
-theorem Good.cast {c c' : PC} {S S' R R' : List Bytes} (g : Good x j ownA ownB c S R) (hc : c' = c) (hS : S' = S)
-    (hR : R' = R) : Good x j ownA ownB c' S' R' := by subst hc hS hR; exact g
+theorem Good.cast {c c' : PC} {S S' R R' W W' : List Bytes} {P P' : Nat} (g : Good x j ownA ownB c S R W P)
+    (hc : c' = c) (hS : S' = S) (hR : R' = R) (hW : W' = W := by rfl) (hP : P' = P := by rfl) :
+    Good x j ownA ownB c' S' R' W' P' := by subst hc hS hR hW hP; exact g
 
 /-- A sequence of small steps of the left side; what it sends goes onto the wire (if it is still open). -/
-theorem Good.starL (hex : ¬(ownA ∧ ownB)) {jA : Nat} {c : PC} {S R : List Bytes} {v : View} {ws : List Msg} {acc : List Bytes}
-    (g : Good x j ownA ownB c S R) (h : Star x jA c.a v ws acc) (hn : v.rngNil = false) :
-    Good x j ownA ownB { c with a := v, ab := if c.abOpen then c.ab ++ ws else c.ab } (S ++ pX x ws) R := by
+theorem Good.starL (hex : ¬(ownA ∧ ownB)) {jA : Nat} {c : PC} {S R W : List Bytes} {P : Nat} {v : View} {ws : List Msg}
+    {acc : List Bytes} {xl : List XL} (g : Good x j ownA ownB c S R W P) (h : Star x jA c.a v ws acc xl)
+    (hn : v.rngNil = false) :
+    Good x j ownA ownB { c with a := v, ab := if c.abOpen then c.ab ++ ws else c.ab } (S ++ pX x ws) R
+      (W ++ XL.wrotes xl) P := by
   generalize hva : c.a = va at h
-  induction h generalizing c S with
+  induction h generalizing c S W with
   | refl v =>
     subst hva
-    refine g.cast ?_ (by simp [pX]) rfl
+    refine g.cast ?_ (by simp [pX]) rfl (by simp [XL.wrotes])
     cases c; simp
-  | @step v0 v1 v2 w1 w2 a1 a2 st rest ih =>
+  | @step v0 v1 v2 w1 w2 a1 a2 x1 x2 st rest ih =>
     subst hva
     have hn1 : v1.rngNil = false := rngNil_mono_star rest hn
-    have g1 := g.stepL hex (CStepL.act c v1 w1 a1 st) hn1
+    have g1 := g.stepL hex (CStepL.act c v1 w1 a1 x1 st) hn1
     have g2 := ih g1 hn rfl
-    refine g2.cast ?_ (by simp [pX_append, List.append_assoc]) rfl
+    refine g2.cast ?_ (by simp [pX_append, List.append_assoc]) rfl (by simp [XL.wrotes_append, List.append_assoc])
     cases c with
     | mk a b ab ba abo bao => cases abo <;> simp
 
 /-- A sequence of small steps of the right side. -/
-theorem Good.starR (hex : ¬(ownA ∧ ownB)) {c : PC} {S R : List Bytes} {v : View} {ws : List Msg} {acc : List Bytes}
-    (g : Good x j ownA ownB c S R) (h : Star x j c.b v ws acc) (hn : v.rngNil = false) :
-    Good x j ownA ownB { c with b := v, ba := if c.baOpen then c.ba ++ ws else c.ba } S (R ++ acc) := by
+theorem Good.starR (hex : ¬(ownA ∧ ownB)) {c : PC} {S R W : List Bytes} {P : Nat} {v : View} {ws : List Msg}
+    {acc : List Bytes} {xl : List XL} (g : Good x j ownA ownB c S R W P) (h : Star x j c.b v ws acc xl)
+    (hn : v.rngNil = false) :
+    Good x j ownA ownB { c with b := v, ba := if c.baOpen then c.ba ++ ws else c.ba } S (R ++ acc) W (P + XL.fins xl) := by
   generalize hvb : c.b = vb at h
-  induction h generalizing c R with
+  induction h generalizing c R P with
   | refl v =>
     subst hvb
-    refine g.cast ?_ rfl (by simp)
+    refine g.cast ?_ rfl (by simp) rfl (by simp [XL.fins])
     cases c; simp
-  | @step v0 v1 v2 w1 w2 a1 a2 st rest ih =>
+  | @step v0 v1 v2 w1 w2 a1 a2 x1 x2 st rest ih =>
     subst hvb
     have hn1 : v1.rngNil = false := rngNil_mono_star rest hn
-    have g1 := g.stepR hex (CStepL.act c.swap v1 w1 a1 st) hn1
+    have g1 := g.stepR hex (CStepL.act c.swap v1 w1 a1 x1 st) hn1
     have g2 := ih g1 hn rfl
-    refine g2.cast ?_ rfl (by simp [List.append_assoc])
+    refine g2.cast ?_ rfl (by simp [List.append_assoc]) rfl (by simp [XL.fins_append]; omega)
     cases c with
     | mk a b ab ba abo bao => cases bao <;> simp [PC.swap]
 
